@@ -45,6 +45,8 @@ def generate(rng, tier) -> dict:
             dt = natural if rng.random() < 0.5 else rng.choice(DT)
             sc["ops"].append({"op": "cwrite", "n": rng.randint(1, mx // 3), "dtype": dt, "vals": "rep" if rng.random() < 0.85 else "unrep"})
         sc["reads"] = [[rng.random(), rng.random()] for _ in range(2)]
+        # an EARLIER product written from the same header at another depth (a session that writes several files)
+        sc["pre_depth"] = rng.choice([None, None, 1, 2, 4, 8, 16, 32])
         sc["gulp"] = rng.randint(1, mx)
         if rng.random() < 0.2:
             sc["faults"].append({"kind": "W3", "op": 0, "call": rng.randint(1, len(sc["ops"])), "arg": rng.randint(0, 12)})
@@ -160,6 +162,14 @@ def exec_fil(sc, ctx, sim, mk) -> None:
         sizes.append((before, after, append_only))
 
     sim.write_hook = hook
+    if sc.get("pre_depth"):
+        ctx.probe("earlier-product-at-other-depth")
+        try:
+            wp = hdr.prep_outfile(os.path.join(ctx.root, "earlier.fil"), nbits=sc["pre_depth"])
+            wp.close()
+        except Exception as e:  # noqa: BLE001 - context, not the call under test
+            ctx.observations["earlier-product-raised:" + type(e).__name__] += 1
+        sizes.clear()
     try:
         w = hdr.prep_outfile(path, nbits=d)
     except OSError as e:
